@@ -35,8 +35,10 @@ int gv_allnum;   /* ghost: every diagonal element the scaling pass read is a num
    test is a number.  Empty unless the exclusion pass defines GV_EXCL_COVMAT_NAN_PIVOT. */
 #ifdef GV_EXCL_COVMAT_NAN_PIVOT
 #define CVP_EXCL_NOT_NAN(x) __CPROVER_assume((x) == (x))
+#define CVP_EXCL_ALLNUM && gv_allnum == 1   /* proved as part of the invariant, not assumed: no NaN was met */
 #else
 #define CVP_EXCL_NOT_NAN(x)
+#define CVP_EXCL_ALLNUM
 #endif
 
 /* ---- proof text of ONE PASS of the row loop of CovMat::cholDec, shared by the block CovMat_cholDec_row (BX = *B__p)
@@ -46,6 +48,7 @@ int gv_allnum;   /* ghost: every diagonal element the scaling pass read is a num
   CVP_USE_STEP(N, W, row);                                                                                 \
   if (1 <= gv_k0 && gv_k0 <= row) CVP_USE_MONO(N, W, gv_k0, row);                                          \
   const Float gv_v0 = (1 <= gv_k0 && gv_k0 < row) ? REP(self)[TAB(gv_k0)] : 0;                             \
+  Index gv_elims = 0; /* ghost: rows eliminated in this pass */                                            \
   CVP_EXCL_NOT_NAN(*(BX));                                                                                 \
   CVP_EXCL_NOT_NAN(Tol);
 /* what the inner loops keep: the earlier pivot and this row's pivot stay where they are */
@@ -53,8 +56,8 @@ int gv_allnum;   /* ghost: every diagonal element the scaling pass read is a num
   (((1 <= gv_k0 && gv_k0 < row) ==> MV_SAMEVAL(REP(self)[TAB(gv_k0)], gv_v0)) && MV_SAMEVAL(REP(self)[TAB(row)], pivot))
 /* for (n=1; n<=k; n++): p + n is the diagonal element of row+n */
 #define CVP_ROW_LOOP1(BX)                                                                                  \
-  __CPROVER_assigns(n, l, q, p, __CPROVER_object_whole(REP(self)))                                         \
-  __CPROVER_loop_invariant(1 <= n && n <= k + 1 && SAME(p, REP(self)) &&                                   \
+  __CPROVER_assigns(n, l, q, p, gv_elims, __CPROVER_object_whole(REP(self)))                               \
+  __CPROVER_loop_invariant(1 <= n && n <= k + 1 && gv_elims == n - 1 && SAME(p, REP(self)) &&                                   \
                            OFF(p) + FSZ * n == OFF(REP(self)) + FSZ * TAB(row + n) && OFF(p) >= OFF(BX) + FSZ * k && \
                            CVP_ROW_KEEPS)                                                                  \
   __CPROVER_decreases((long)k + 1 - n)
@@ -73,6 +76,9 @@ int gv_allnum;   /* ghost: every diagonal element the scaling pass read is a num
                            OFF(BX) == OFF(REP(self)) + FSZ * (TAB(row) + 1 + gv_kk - k) && CVP_ROW_KEEPS)  \
   __CPROVER_decreases(k)
 #define CVP_ROW_HEAD3(BX) GV_ANCHOR(BX, REP(self) + (TAB(row) + 1 + gv_kk - k));
+#define CVP_ROW_TAIL1 gv_elims = gv_elims + 1;
+#define CVP_ROW_AFTER1 \
+  __CPROVER_assert(gv_elims == k, "every row coupled to the pivot row (row+1 .. row+k) has been eliminated");
 #define CVP_ROW_EXIT(BX)                                                                                   \
   __CPROVER_assert(pivot > Tol, "an accepted pivot is greater than the tolerance (a NaN is not)");
 
@@ -163,7 +169,7 @@ CVP_USE_END(N, W);
 gv_allnum = 1;
 //@ loop CovMat_cholDec 1
 __CPROVER_assigns(n, row, q, k, gv_d0, gv_allnum)
-__CPROVER_loop_invariant(1 <= row && row <= N + 1 && n == TAB(row) && (gv_allnum == 0 || gv_allnum == 1) &&
+__CPROVER_loop_invariant(1 <= row && row <= N + 1 && n == TAB(row) && (gv_allnum == 0 || gv_allnum == 1) CVP_EXCL_ALLNUM &&
                          (gv_allnum ==> (q >= 0 && ((1 <= gv_k0 && gv_k0 < row) ==> q >= gv_d0))))
 __CPROVER_decreases((long)N + 1 - row)
 //@ head CovMat_cholDec 1
@@ -203,7 +209,10 @@ CVP_ROW_LOOP1(B)
 CVP_ROW_HEAD1(B)
 //@ loop CovMat_cholDec 4
 CVP_ROW_LOOP2(B)
+//@ tail CovMat_cholDec 3
+CVP_ROW_TAIL1
 //@ pre CovMat_cholDec 5
+CVP_ROW_AFTER1
 const Index gv_kk = k;
 //@ loop CovMat_cholDec 5
 CVP_ROW_LOOP3(B)
@@ -251,7 +260,10 @@ CovMat_cholDec_elim(self, (*B__p), &p, N, W, row, k, n, pivot);
 #endif
 //@ loop CovMat_cholDec_row 2
 CVP_ROW_LOOP2((*B__p))
+//@ tail CovMat_cholDec_row 1
+CVP_ROW_TAIL1
 //@ pre CovMat_cholDec_row 3
+CVP_ROW_AFTER1
 const Index gv_kk = k;
 //@ loop CovMat_cholDec_row 3
 CVP_ROW_LOOP3((*B__p))
@@ -288,13 +300,18 @@ CVP_USE_STEP(N, W, row + n);
 if (1 <= gv_k0 && gv_k0 <= row) CVP_USE_MONO(N, W, gv_k0, row);
 const Float gv_v0 = (1 <= gv_k0 && gv_k0 < row) ? REP(self)[TAB(gv_k0)] : 0;
 const Float gv_p0 = REP(self)[TAB(row)];
+Index gv_cols = 0;        /* ghost: elements of row+n updated */
 GV_ANCHOR((*p__p), REP(self) + (TAB(row + n) - n));
 //@ loop CovMat_cholDec_elim 1
-__CPROVER_assigns(l, __CPROVER_object_whole(REP(self)))
-__CPROVER_loop_invariant(n <= l && l <= k + 1 &&
+__CPROVER_assigns(l, gv_cols, __CPROVER_object_whole(REP(self)))
+__CPROVER_loop_invariant(n <= l && l <= k + 1 && gv_cols == l - n &&
                          ((1 <= gv_k0 && gv_k0 < row) ==> MV_SAMEVAL(REP(self)[TAB(gv_k0)], gv_v0)) &&
                          MV_SAMEVAL(REP(self)[TAB(row)], gv_p0))
 __CPROVER_decreases((long)k + 1 - l)
+//@ tail CovMat_cholDec_elim 1
+gv_cols = gv_cols + 1;
+//@ at CovMat_cholDec_elim after_cols
+__CPROVER_assert(gv_cols == k - n + 1, "every element (row+n, row+n .. row+k) inside the band has been updated");
 //@ end
 
 //@ harness
